@@ -23,7 +23,7 @@ var (
 	c05Age     = []time.Duration{-time.Second, 0, time.Second} // age - duration
 	c05NRD     = []string{"unset", "zero", "pos"}
 	c05Restart = []string{"none", "recent", "old", "exact", "first-old-last-recent"}
-	c05Pause   = []string{"none", "ann", "cond", "ann-false"}
+	c05Pause   = []string{"none", "ann", "cond", "ann-false", "ann-after-resume"}
 	c05Bool    = []bool{false, true}
 	c05Valid   = []string{"absent", "this", "other"}
 )
@@ -33,7 +33,7 @@ const c05NR = 5 * time.Minute
 
 func (e *C05) Name() string { return "fn.c05" }
 func (e *C05) Rule() string {
-	return "full product: strategy {absent,auto,manual,manual with the duration an earlier auto-mode defaulting left in the spec} x age-duration {-1s,0,+1s} x noRestartsDuration {unset,0,5m} x last restart {none, 1m ago, 6m ago, exactly 5m ago, first 9m ago + latest 1m ago} x pause {none, annotation, RS condition, annotation=false} x unpaused {no,yes} x canary-valid {absent,this,other} x failed {no,yes} x active RS {present,missing}; each point is a prepared store given one real EDS Reconcile at an exact virtual instant (exhaustive); non-trivial = points with a canary strategy and the active RS present"
+	return "full product: strategy {absent,auto,manual,manual with the duration an earlier auto-mode defaulting left in the spec} x age-duration {-1s,0,+1s} x noRestartsDuration {unset,0,5m} x last restart {none, 1m ago, 6m ago, exactly 5m ago, first 9m ago + latest 1m ago} x pause {none, annotation, RS condition, annotation=false, annotation after an earlier resume (condition False left on the replica set)} x unpaused {no,yes} x canary-valid {absent,this,other} x failed {no,yes} x active RS {present,missing}; each point is a prepared store given one real EDS Reconcile at an exact virtual instant (exhaustive); non-trivial = points with a canary strategy and the active RS present"
 }
 func (e *C05) n() int {
 	return len(c05Strat) * len(c05Age) * len(c05NRD) * len(c05Restart) * len(c05Pause) * 2 * len(c05Valid) * 2 * 2
@@ -121,6 +121,11 @@ func (e *C05) point(ctx *core.Ctx, p int) {
 		rsB.Status.Conditions = append(rsB.Status.Conditions, v1.ExtendedDaemonSetReplicaSetCondition{Type: v1.ConditionTypeCanaryPaused, Status: corev1.ConditionTrue, Reason: "ImagePullBackOff"})
 	case "ann":
 		eds.Annotations[v1.ExtendedDaemonSetCanaryPausedAnnotationKey] = "true"
+	case "ann-after-resume":
+		// paused by annotation once more after an earlier pause was lifted: the replica set still carries the
+		// Canary-Paused condition with status False that the resume left behind
+		eds.Annotations[v1.ExtendedDaemonSetCanaryPausedAnnotationKey] = "true"
+		rsB.Status.Conditions = append(rsB.Status.Conditions, v1.ExtendedDaemonSetReplicaSetCondition{Type: v1.ConditionTypeCanaryPaused, Status: corev1.ConditionFalse, Reason: "ImagePullBackOff", LastTransitionTime: metav1.NewTime(now.Add(-3 * time.Minute)), LastUpdateTime: metav1.NewTime(now.Add(-3 * time.Minute))})
 	case "ann-false":
 		eds.Annotations[v1.ExtendedDaemonSetCanaryPausedAnnotationKey] = "false"
 	}
@@ -162,7 +167,7 @@ func (e *C05) point(ctx *core.Ctx, p int) {
 	ctx.Count("C05.points")
 	ctx.Count("evaluations")
 	desc := map[string]any{"strategy": strat, "age-duration": ageD.String(), "noRestartsDuration": nrd, "lastRestart": lastRestart, "pause": pause, "unpaused": unp, "valid": valid, "failed": failed, "activePresent": activePresent}
-	attrs := map[string]string{"strategy": strat, "failed": fmt.Sprint(failed), "paused": fmt.Sprint(pause == "ann" || pause == "cond"), "valid": valid, "elapsed": fmt.Sprint(ageD > 0), "activePresent": fmt.Sprint(activePresent)}
+	attrs := map[string]string{"strategy": strat, "failed": fmt.Sprint(failed), "paused": fmt.Sprint(pause == "ann" || pause == "cond" || pause == "ann-after-resume"), "valid": valid, "elapsed": fmt.Sprint(ageD > 0), "activePresent": fmt.Sprint(activePresent)}
 	if out.Panic != "" {
 		attrs["panic"] = out.Panic
 		ctx.Violation("C05", "C05.no-panic", attrs, desc)
@@ -176,7 +181,7 @@ func (e *C05) point(ctx *core.Ctx, p int) {
 	ctx.Distinct("points", fmt.Sprint(desc))
 
 	// promotionAllowed(view, now): must / must-not / either
-	isPaused := pause == "ann" || pause == "cond"
+	isPaused := pause == "ann" || pause == "cond" || pause == "ann-after-resume"
 	allowed, either := false, false
 	rule := "C05.promotion"
 	switch {
